@@ -28,6 +28,19 @@ def _galaxy(case):
         ny, nx = nx, ny
     case.note('axis:shape_ellipse:' + ('square' if ny == nx else 'nonsquare'))
     x0, y0 = nx / 2 + rng.uniform(-2, 2), ny / 2 + rng.uniform(-2, 2)
+    side = str(rng.choice(['centre', 'centre', 'left', 'right', 'bottom', 'top']))
+    case.note('axis2_edge_ellipse:' + side)        # the fitted path leaves the frame on ONE side only
+    if side == 'left':
+        x0 = float(rng.uniform(7, 10))
+    elif side == 'right':
+        x0 = float(nx - 1 - rng.uniform(7, 10))
+    elif side == 'bottom':
+        y0 = float(rng.uniform(7, 10))
+    elif side == 'top':
+        y0 = float(ny - 1 - rng.uniform(7, 10))
+    if rng.random() < 0.25:
+        x0, y0 = float(np.floor(x0) + 0.5 * int(rng.integers(0, 2))), float(np.floor(y0) + 0.5 * int(rng.integers(0, 2)))
+        case.note('axis2_halfint_ellipse')
     eps, pa = float(rng.uniform(0.1, 0.5)), float(rng.uniform(0, np.pi))
     r0, i0 = float(rng.uniform(4, 8)), float(rng.uniform(500, 5000))
     yy, xx = np.mgrid[0:ny, 0:nx]
@@ -99,7 +112,7 @@ def run(case):
     rng = case.rng
     img, guess, gdesc = _galaxy(case)
     lay = AX.layout(case, 'layout_ellipse')
-    container = ['ndarray', 'ndarray', 'masked_array', 'float32'][int(rng.integers(0, 4))]
+    container = ['ndarray', 'ndarray', 'masked_array', 'float32', 'uint16', 'int16', 'float16'][int(rng.integers(0, 7))]
     case.note('axis:container_ellipse:' + container)
 
     def image():
@@ -110,6 +123,10 @@ def run(case):
             return np.ma.MaskedArray(a, mask=m)
         if container == 'float32':
             return a.astype(np.float32)
+        if container in ('uint16', 'int16', 'float16'):
+            b = a / gdesc['magnitude']
+            b = b / max(float(np.max(b)), 1.0) * (30000.0 if container != 'float16' else 1000.0)
+            return b.astype(container)
         return a
     threshold = float(rng.choice([0.1, 0.1, 0.05]))
     with_geom = rng.random() < 0.85
